@@ -15,7 +15,7 @@ func VerifC12Presentation() {
 	vForbidPanic("C12")
 	vTimerMode(0)
 	// the transformation decides which part of the content needs two elements
-	tr := vChoose("transformation", 8)
+	tr := vChoose("transformation", 9)
 	nAuth, nAz := 1, 1
 	if tr == 0 {
 		nAuth = 2
@@ -74,9 +74,11 @@ func VerifC12Presentation() {
 	case 6:
 		vLabel("duplicate a fact")
 		z2.facts = append(append([]gAtom{}, z.facts...), z.facts[0])
-	default:
+	case 7:
 		vLabel("authorize twice")
 		sameAuthorizer = true
+	default:
+		vLabel("rename variable to a predicate's name")
 	}
 	var second gRun
 	if sameAuthorizer {
@@ -92,6 +94,9 @@ func VerifC12Presentation() {
 	} else {
 		if tr == 5 {
 			gVarName = "y"
+		}
+		if tr == 8 {
+			gVarName = "a" // the same text as a predicate name: variables and names share the symbol table
 		}
 		g2 := g
 		if tr == 0 {
@@ -116,6 +121,12 @@ func VerifC18Snapshot() {
 	var z gAuthz
 	z.gBlock = gGenBlock("az", vParam("azFacts"), vParam("azRule"), vParam("azCheck"))
 	z.policies = gGenPolicies("pol", vParam("policies"), vParam("polMode"))
+	// a second check, with two alternative queries, so that "all checks" and "all queries" are restored
+	// (its names are taken from content that exists already, so that it adds no name coincidences to explore)
+	nm := authority.facts[0].name
+	q1 := gRule{body: []gAtom{{name: nm, c: vInt64("az.c2.k")}}}
+	q2 := gRule{body: []gAtom{{name: nm, isVar: true}}}
+	z.checks = append(z.checks, []gRule{q1, q2})
 	probe := gProbe("probe")
 	g := gBuildToken(authority, nil)
 	target := g.tok
@@ -133,6 +144,13 @@ func VerifC18Snapshot() {
 	vAssert(err == nil, "C18.save")
 	if err != nil {
 		return
+	}
+	data2, err2 := src.SerializePolicies()
+	// saving leaves the authorizer unevaluated: it can be saved again (which of the two snapshots is
+	// loaded below is the solver's choice when the family asks for it)
+	vAssert(err2 == nil, "C18.save-again")
+	if err2 == nil && vParamOpt("secondSave") == 1 {
+		data = data2
 	}
 	dst, err := NewVerifier(target, gPatient)
 	if err != nil {
@@ -155,8 +173,20 @@ func VerifC18Snapshot() {
 	if !restored.qerr && !direct.qerr {
 		vAssert(gSetEq(restored.facts, direct.facts), "C18.same-query-result")
 	}
+	// the original authorizer, used after it was saved, still gives the outcome of its content
+	if vSameToken(target, g.tok) {
+		var orig gRun
+		orig.class = gClass(src.Authorize())
+		ofs, oqerr := src.Query(probe)
+		orig.facts, orig.qerr = ofs, oqerr != nil
+		vAssert(orig.class == direct.class, "C18.original-unchanged-by-saving")
+		if !orig.qerr && !direct.qerr {
+			vAssert(gSetEq(orig.facts, direct.facts), "C18.original-unchanged-by-saving")
+		}
+	} else {
+		src.Authorize()
+	}
 	// saving is refused once the authorizer has been evaluated
-	src.Authorize()
 	_, err = src.SerializePolicies()
 	vAssert(err != nil, "C18.refused-after-authorize")
 	q, err := NewVerifier(g.tok, gPatient)
@@ -207,5 +237,40 @@ func VerifC12RuleOrder() {
 	vAssert(first.class == second.class, "C12.same-outcome")
 	if !first.qerr && !second.qerr {
 		vAssert(gSetEq(first.facts, second.facts), "C12.same-derived-facts")
+	}
+}
+
+func vSameToken(a, b *Biscuit) bool { return a == b }
+
+// VerifC12Twice: on a token with attenuation blocks, asking the same authorizer twice gives the answer
+// a fresh authorizer gives (the presentation "evaluate, then evaluate again" changes nothing).
+func VerifC12Twice() {
+	vForbidPanic("C12")
+	vTimerMode(0)
+	authority := gGenBlock("auth", vParam("authFacts"), 0, 0)
+	b1 := gGenBlock("blk", vParam("blkFacts"), 0, vParam("blkCheck"))
+	b2 := gGenBlock("blk2", vParam("blk2Facts"), 0, 0)
+	var z gAuthz
+	z.policies = gGenPolicies("pol", 1, 1)
+	probe := gProbe("probe")
+	g := gBuildToken(authority, []gBlock{b1, b2})
+	fresh := gAuthorize(g.tok, z, probe)
+	vObserve("class", fresh.class)
+	a, err := NewVerifier(g.tok, gPatient)
+	if err != nil {
+		return
+	}
+	gLoad(a, z)
+	c1 := gClass(a.Authorize())
+	c2 := gClass(a.Authorize())
+	c3 := gClass(a.Authorize())
+	fs, qerr := a.Query(probe)
+	vCover("compared")
+	vAssert(c1 == fresh.class, "C12.first-call")
+	vAssert(c2 == fresh.class, "C12.second-call-same-outcome")
+	vAssert(c3 == fresh.class, "C12.third-call-same-outcome")
+	vAssert((qerr != nil) == fresh.qerr, "C12.same-query-error")
+	if qerr == nil && !fresh.qerr {
+		vAssert(gSetEq(fs, fresh.facts), "C12.same-derived-facts")
 	}
 }
